@@ -515,6 +515,10 @@ func (g *Gen) loopHead(b *ssa.BasicBlock, li *loopInfo, st *State, rname string,
 			if li.sRoots == nil {
 				li.sRoots = map[string][]string{}
 			}
+			if g.rootTypes == nil {
+				g.rootTypes = map[string]types.Type{}
+			}
+			g.rootTypes[v.Addr] = v.GoT
 			g.cellKinds(v.GoT, func(k string) {
 				li.sRoots[k] = append(li.sRoots[k], v.Addr)
 				found := false
@@ -551,7 +555,7 @@ func (g *Gen) loopHead(b *ssa.BasicBlock, li *loopInfo, st *State, rname string,
 				conds = append(conds, "(not (= l "+s+"))")
 			}
 			for _, s := range li.sRoots[k] {
-				conds = append(conds, "(not (= (l_obj l) (l_obj "+s+")))")
+				conds = append(conds, "(not "+g.rootChanged(s, g.rootTypes[s], k, "l")+")")
 			}
 			if k == "bytes" {
 				for _, w := range li.sWins {
@@ -1086,7 +1090,7 @@ func (g *Gen) backEdge(b *ssa.BasicBlock, succIdx int, h *ssa.BasicBlock, st *St
 				conds = append(conds, "(not (= "+sk+" "+s+"))")
 			}
 			for _, s := range li.sRoots[k] {
-				conds = append(conds, "(not (= (l_obj "+sk+") (l_obj "+s+")))")
+				conds = append(conds, "(not "+g.rootChanged(s, g.rootTypes[s], k, sk)+")")
 			}
 			if k == "bytes" {
 				for _, w := range li.sWins {
@@ -1220,6 +1224,10 @@ func (g *Gen) frameCheck(st *State, env *Env) {
 			continue
 		}
 		if v.Root {
+			if g.rootTypes == nil {
+				g.rootTypes = map[string]types.Type{}
+			}
+			g.rootTypes[v.Addr] = v.GoT
 			g.cellKinds(v.GoT, func(k string) { modRoots[k] = append(modRoots[k], v.Addr) })
 			continue
 		}
@@ -1250,7 +1258,7 @@ func (g *Gen) frameCheck(st *State, env *Env) {
 			conds = append(conds, "(not (= "+sk+" "+l+"))")
 		}
 		for _, l := range modRoots[k] {
-			conds = append(conds, "(not (= (l_obj "+sk+") (l_obj "+l+")))")
+			conds = append(conds, "(not "+g.rootChanged(l, g.rootTypes[l], k, sk)+")")
 		}
 		if k == "bytes" {
 			for _, w := range wins {
